@@ -142,9 +142,10 @@ Proof. intros T N. exact (@logit_range T N). Qed.
 Print Assumptions C20_logit_range.
 
 (* ---- the hypotheses are satisfiable by concrete non-trivial objects *)
-Definition A_ex : list (list Q) := [[4; 0; 1]; [3; 3; 1]; [0; 2; 2]]%Q.
+Definition A_ex : list (list Q) := [[0; 3; 1]; [3; 0; 1]; [2; 2; 2]]%Q.
 Example ex_brd : valid_dist 5 3 [2; 0; 3] /\ zlen A_ex = 3 /\
-  brd_series A_ex (1 # 100000000) [2; 0; 3] [0; 4; 2; 1] = Some ([[2; 0; 3]; [1; 1; 3]; [1; 2; 2]; [1; 3; 1]], [1; 3; 1]).
+  brd_series A_ex (1 # 100000000) [2; 0; 3] [0; 4; 2; 1; 0; 3] =
+    Some ([[2; 0; 3]; [1; 0; 4]; [1; 0; 4]; [1; 0; 4]; [1; 0; 4]; [0; 0; 5]], [0; 0; 5]).
 Proof.
   split; [|split].
   - split; [reflexivity|]. split; [repeat constructor; lia|reflexivity].
@@ -155,7 +156,7 @@ Qed.
 Example ex_fp :
   gain_ok None /\ fp_inv_state 2 2 ([1; 0]%Q, [1#2; 1#2]%Q, 0) /\
   option_map (fun r => snd r) (fp_series [[1; 0]; [0; 1]]%Q [[0; 1]; [1; 0]]%Q None (1 # 100000000) [1; 0]%Q [1#2; 1#2]%Q 0 [None; None])
-    = Some ([1#3; 2#3]%Q, [1#2; 1#2]%Q, 2).
+    = Some ([2#3; 1#3]%Q, [1#6; 5#6]%Q, 2).
 Proof.
   split; [exact I|]. split.
   - unfold fp_inv_state, probvec. repeat split; try reflexivity; try lia; repeat constructor; try (vm_compute; discriminate).
@@ -186,11 +187,11 @@ Proof.
     destruct Hk as [<-|[<-|[]]]; (split; [discriminate|]; split; [reflexivity|]; intros u Hu; apply logit_scaling_Q; [reflexivity|exact Hu]).
 Qed.
 Example ex_logit_run :
-  logit_series cdfs_ex [0; 1] [(0, 1#2); (1, 0); (0, 9#10)]%Q = Some ([[0; 1]; [0; 1]; [0; 0]], [1; 0]).
+  logit_series cdfs_ex [0; 1] [(0, (1#2)%Q); (1, 0%Q); (0, (9#10)%Q)] = Some ([[0; 1]; [0; 1]; [0; 0]], [1; 0]).
 Proof. vm_compute. reflexivity. Qed.
 
 Example ex_localint :
   acts_ok 2 3 [0; 1; 1] /\
   localint_series [[2; 0]; [0; 1]]%Q [[0; 1; 1]; [1; 0; 0]; [2; 0; 0]]%Q 0 [0; 1; 1] [None; Some 1; None]
-    = Some ([[0; 1; 1]; [1; 0; 0]; [1; 1; 0]], [1; 1; 1]).
+    = Some ([[0; 1; 1]; [1; 0; 0]; [1; 1; 0]], [0; 1; 1]).
 Proof. split; [split; [reflexivity|repeat constructor; lia]|vm_compute; reflexivity]. Qed.
